@@ -278,7 +278,7 @@ def main(args=sys.argv[1:]):
     config = parse(args)
     try:
         qr = make_code(config)
-    except ValueError as ex:
+    except (ValueError, LookupError) as ex:  # LookupError: unknown encoding
         sys.stderr.writelines([str(ex), os.linesep])
         return sys.exit(1)
     output = config.pop('output')
